@@ -1037,8 +1037,18 @@ class Interp:
         fr.ctx.append(("for", st.lineno, itr))     # the iterator position is part of the control state (cut keys)
         if type(itr).__name__ == "SymRangeIter" and isinstance(st.target, ast.Name):
             itr.owner = (fr, st.target.id)
+        mark = getattr(itr, "pyvc_loop_head", None)
         try:
             while True:
+                if mark is not None:
+                    # loop over a collection of arbitrary length (harness iterable): the loop head is an observable
+                    # synchronisation point of a bisimulation (joint cut point = loop invariant), never a real yield:
+                    # it is only ever resumed with send(None)
+                    fr.loc = ("loop-head", st.lineno, st.col_offset)
+                    self.nyields += 1
+                    tok = yield ("Y", mark)
+                    if tok != ("send", None):
+                        raise EngineError("loop-head marker resumed with something other than send(None)")
                 try:
                     x = yield from self.iter_next(itr)
                 except _IterStop:
@@ -1745,8 +1755,20 @@ class Interp:
         return (yield from self.yield_from(it, fr))
 
     def yield_from(self, it, fr=None, event="Y"):
-        """PEP 380"""
+        """PEP 380.  While a frame is suspended in `yield from <sub-iterator>` the sub-iterator is recorded on the frame
+        (`yf_delegate`): a sub-generator that is not bound to any variable (`yield from inner()`) is otherwise invisible to
+        the canonical cut keys of a bisimulation (opt-in there: Bisim.deep_keys)"""
         g = yield from self.get_iter(it)
+        if fr is None:
+            return (yield from self._yield_from(g, event))
+        saved = getattr(fr, "yf_delegate", None)
+        fr.yf_delegate = g
+        try:
+            return (yield from self._yield_from(g, event))
+        finally:
+            fr.yf_delegate = saved
+
+    def _yield_from(self, g, event):
         if not isinstance(g, (GenObj, AbsGen)):
             # plain iterator: yield each item, sends must be None
             while True:
